@@ -15,7 +15,7 @@ from ..gen import service as S
 PID = "C10"
 RULE = (
     "hostile label sets over a small alphabet (incl. names that end with the text of another name: A, BA, Plant A): flat names, '/'-paths of depth 1-4, labels that are '/'-suffixes or prefixes of other labels, "
-    "labels or components equal to generated unit-operation names (O1, O2 ...), the root name as label, names with inner spaces, empty "
+    "labels or components equal to generated unit-operation names (O1, O2 ...), the root name as label, names with inner spaces, non-canonical spellings of a label (blanks around separators, trailing or doubled separator), empty "
     "labels, duplicate stream names within and across zones; with and without a user zone tree (built from the label set; labels then "
     "given as full path, relative path or unambiguous leaf name; labelled non-leaf nodes and ambiguous suffixes are flagged classes). "
     "oracle (counting): the zone at label path p holds exactly the multiset of streams whose label has p as a component-wise prefix (hot and "
@@ -282,6 +282,18 @@ def user_tree_case(draw):
             classes.add("ambiguous-suffix")
         if comps == ("Site",):
             classes.add("root-label")
+        # the same label in a non-canonical spelling (blanks around the separators, trailing or doubled separator)
+        spell = draw(st.sampled_from(["plain", "plain", "plain", "blanks", "lead-trail", "trailing-slash", "double-slash"]))
+        if spell == "blanks":
+            lab = " / ".join(lab.split("/"))
+        elif spell == "lead-trail":
+            lab = " " + lab + " "
+        elif spell == "trailing-slash":
+            lab = lab + "/"
+        elif spell == "double-slash" and "/" in lab:
+            lab = lab.replace("/", "//", 1)
+        if spell != "plain":
+            classes.add("non-canonical-spelling")
         s["zone"] = lab
         streams.append(s)
         resolved.append(list(p))
